@@ -121,6 +121,14 @@ CHECKS.update({
         design="3/C09"),
 })
 
+CHECKS.update({
+    "C05": dict(
+        technique="fuzzing-style injection testing: complete slot x payload-class matrix over a carrier document (slots discovered by a generic walker) plus Hypothesis multi-slot combinations; AST/token canary oracle and string-constant fidelity oracle",
+        text="Every string-valued leaf and name-bearing key of a rich carrier document (76 slots) is injected with each of 22 canary-framed hostile payload classes (1672 generations every run), then 2-8 slot combinations under random configurations: every generated file must compile, the call token must never appear as a Name/Attribute/Call, no canary may sit in a comment, pyproject.toml must parse with the expected values, and run-time meaningful text must reappear as an identical string constant or be rejected with a diagnostic. Multi-slot failures are reduced to a 1-minimal slot set before matching.",
+        note="nothing generated is imported or executed; 'becomes code' is exact identifier equality with the call token; eight root causes are listed findings keyed by (sink pattern, payload class)",
+        design="3/C05"),
+})
+
 NOT_YET = {}
 
 def main():
